@@ -266,6 +266,10 @@ func (u *Unit) execCallVals(st *State, fr *Frame, site ssa.Instruction, c *ssa.C
 		// 4. in-repo function without a contract: unknown effects
 		if callee.Pkg != nil && strings.HasPrefix(callee.Pkg.Pkg.Path(), modulePath) {
 			u.lockSetCall(st, fr, site, callee, nil, nil)
+			if u.uncontracted == nil {
+				u.uncontracted = map[string]bool{}
+			}
+			u.uncontracted[callee.Name()] = true
 			u.abstracted("call to in-repo function without contract: " + callee.String())
 			u.unknownCall(st, fr, site, sig, desigs, argT, true, k)
 			return
